@@ -83,11 +83,30 @@ class ProgressBar(BaseProgressBar):
             if self.__is_current_iteration_logged:
                 return
 
-            x_vect = self._problem.database.get_x_vect(
-                self._problem.evaluation_counter.current or -1
-            )
+            x_vect = self.__get_current_x_vect()
+            if x_vect is None:
+                return
 
         self._set_objective_value(x_vect)
+
+    def __get_current_x_vect(self) -> ndarray | None:
+        """Return the input value of the current iteration.
+
+        Returns:
+            The input value of the current iteration, if any.
+        """
+        database = self._problem.database
+        if not database:
+            return None
+
+        iteration = self._problem.evaluation_counter.current
+        if not 0 < iteration <= len(database):
+            # The counter is not an index of the database,
+            # e.g. when the history was cleared and the counter kept:
+            # the current iteration is the last one.
+            iteration = -1
+
+        return database.get_x_vect(iteration)
 
     def _set_objective_value(self, x_vect: ndarray) -> None:
         """Set the objective value.
@@ -123,10 +142,6 @@ class ProgressBar(BaseProgressBar):
 
     def finalize_iter_observer(self):  # noqa: D102
         if not self.__is_current_iteration_logged:
-            self.set_objective_value(
-                self._problem.database.get_x_vect(
-                    self._problem.evaluation_counter.current or -1
-                )
-            )
+            self.set_objective_value(None)
         self._tqdm_progress_bar.leave = False
         self._tqdm_progress_bar.close()
